@@ -1746,6 +1746,53 @@ def check(pid, tier, seed):
                     except OSError:
                         pass
 
+    # ---- observations that were made while the machine was overloaded: a request answered `timeout` / `died` / `skipped` is asked
+    # again, alone, by a fresh process with a 30 s watchdog.  A request that really hangs or aborts does so again (and stays a
+    # problem); one that is answered normally now was slow, not wrong, and is judged on the new answer.
+    INFRA = ("timeout", "died", "skipped", None)
+    flaky = 0
+
+    def reask(req, label):
+        if req.startswith("mac "):
+            return None
+        a = R.answer_lines_patient(harnesses[label], [req])
+        return a[0] if a else None
+    kept = []
+    for pr in problems:
+        if pr["side"] == "impl" and pr.get("request"):
+            a = reask(pr["request"], pr.get("config") or configs[0][0])
+            if a not in INFRA:
+                flaky += 1
+                log("  %s was not answered in time during the run but is answered by a fresh process (machine load): %s" % (pr["shown"], a[:80]))
+                continue
+        kept.append(pr)
+    problems = kept
+
+    def refresh(entries, is_oracle):
+        out = []
+        for e in entries:
+            if e is None or e[2] not in INFRA:
+                out.append(e)
+                continue
+            sname, req, impl, mo = e[0], e[1], e[2], e[3]
+            label = e[5] if is_oracle else e[4]
+            a = reask(req, label)
+            if a in INFRA:
+                out.append(e)
+                continue
+            c1 = dict(ctx)
+            c1.update({"config": label, "likely": "likely" in dict(configs)[label]})
+            dis, msg = judge(cfg, req, a, mo, c1)
+            if is_oracle and msg and not is_known(req, a):
+                out.append((sname, req, a, mo, msg, label, e[6]))
+            elif (not is_oracle) and dis:
+                out.append((sname, req, a, mo, label))
+        return out
+    n0 = len([x for x in oracle_failures if x]) + len([x for x in disagreements if x])
+    oracle_failures = refresh(oracle_failures, True)
+    disagreements = refresh(disagreements, False)
+    flaky += n0 - (len([x for x in oracle_failures if x]) + len([x for x in disagreements if x]))
+
     # ---- verdict
     violations = []
     if pid == "C18":
@@ -1765,6 +1812,7 @@ def check(pid, tier, seed):
 
     # (a) the oracle found failing inputs on the implementation: concrete violations
     real_oracle = [x for x in oracle_failures if x]
+    unreproducible = []
     budget = 5
     for sname, req, impl, mo, msg, label, before in real_oracle:
         if budget == 0:
@@ -1814,6 +1862,12 @@ def check(pid, tier, seed):
                               "why": msg + " (only after the preceding requests, answered by the same process)",
                               "preceding_requests": keep, "preceding_shown": [R.show_req(x) for x in keep]})
                     break
+            else:
+                # neither the request alone nor the request after what the same process had been asked before fails again:
+                # nothing that can be replayed, nothing that is reported (it is counted in the evidence)
+                unreproducible.append({"request": R.show_req(req), "impl_then": impl, "impl_now": i2, "why": msg, "config": label})
+                log("  an observation could not be reproduced and is not reported: %s -> %s (now %s)" % (R.show_req(req), impl, i2))
+                continue
         violations.append(v)
     for pr in problems:
         if pr["side"] == "impl":
@@ -1877,6 +1931,8 @@ def check(pid, tier, seed):
             "impl_vs_oracle_failures": len(oracle_failures),
             "known_findings_printed": len(seen_known),
             "known_finding_hits": known_hits,
+            "answered_late_under_load": flaky,
+            "unreproducible_observations": unreproducible[:10],
             "cfg_feature_extent": cfg_extent,
             "cldr_translator_crosscheck": cldr_crosscheck,
             "source_tie": source_tie,
